@@ -3,10 +3,10 @@
    refs[v] \subseteq (other variables \cup {"f"}), frefs \subseteq variables.  Cyclic graphs are kept:
    their build ERROR must be deterministic too. *)
 EXTENDS Determinism, Json, SequencesExt
-CONSTANTS NV
+CONSTANTS NV, RMax          \* RMax: most references per initialiser / function body
 V == 1..NV
 Targets(v) == (V \ {v}) \cup {0}                 \* 0 stands for the function f
-Graphs == [refs : [V -> UNION {{S \in SUBSET Targets(v) : Cardinality(S) <= 2} : v \in V}], frefs : {S \in SUBSET V : Cardinality(S) <= 2}]
+Graphs == [refs : [V -> UNION {{S \in SUBSET Targets(v) : Cardinality(S) <= RMax} : v \in V}], frefs : {S \in SUBSET V : Cardinality(S) <= RMax}]
 WellFormed(g) == \A v \in V : g.refs[v] \subseteq Targets(v)
 \* dependency relation over V \cup {0}: v -> t if v's initialiser names t; 0 (the function) -> its variables
 Succ(g, x) == IF x = 0 THEN g.frefs ELSE g.refs[x]
